@@ -1212,7 +1212,8 @@ def c15_reset():
     import pytrs
     _C15_HELD[0] = None
     _C15_HELD_T[0] = None
-    _C15_CFG[0] = pytrs.Config("clean_qq")       # the caller's settings object, reused for the whole history
+    # the caller's settings object, reused for the whole history (a tract-level and a description-level setting)
+    _C15_CFG[0] = pytrs.Config("clean_qq,sec_colon_cautious")
     pytrs.MasterConfig.default_ns = "n"
     pytrs.MasterConfig.default_ew = "w"
     pytrs.TRS._USE_CACHE = True
@@ -1251,7 +1252,8 @@ def c15_probe(p):
         t = pytrs.Tract("NE NW, SW of the SE, Lot 1", "154n97w14", parse_qq=True)
         return (snap_tract(t), t.preprocess())
     if p == "cfg_parse":
-        d = pytrs.PLSSDesc("T154-R97 Sec 14: NE, Lots 1 - 3", config=_C15_CFG[0], parse_qq=True)
+        # (no colon after the section: the description-level setting of the object shows as a warning)
+        d = pytrs.PLSSDesc("T154-R97 Sec 14 NE, Lots 1 - 3", config=_C15_CFG[0], parse_qq=True)
         t = pytrs.Tract.from_twprgesec("N/2", 154, 97, 14, config=_C15_CFG[0])
         return (snap_plss(d), snap_tract(t), str(_C15_CFG[0]))
     if p == "held_tract":
@@ -1351,6 +1353,12 @@ def c15_do(op):
     elif name == "use_cfg":
         pytrs.Tract.from_twprgesec("NE/4", 154, 97, 14, default_ns=a, default_ew=b, config=_C15_CFG[0], parse_qq=True)
         pytrs.TRS.from_twprgesec(154, 97, 14, default_ns=a, default_ew=b)
+        # ... and to the entry points that re-configure the tracts of a description
+        d0 = pytrs.PLSSDesc("T154N-R97W Sec 1: NE/4, Sec 2 W/2", config=_C15_CFG[0])
+        d0.parse_tracts(config=_C15_CFG[0])
+        d0.config_tracts(_C15_CFG[0])
+        d0.tracts.config_tracts(_C15_CFG[0])
+        pytrs.TractList(d0.tracts).parse_tracts(config=_C15_CFG[0], clean_qq=False)
     elif name == "dry_run":
         # previews: parse(commit=False) under other settings on the tract the caller keeps (created now if there is none)
         # and on the tracts of the kept description
